@@ -8,6 +8,8 @@ registration-time API (`SubRoute`, `RouteCall`/`RoutePush`, `RouteCallFunc`/`Rou
 `Fatalf` exit of `reg`, `dispatch` = `bindCall`/`bindPush` (`getCall`/`getPush` lookup).
 -/
 import Teleport.Lemmas.Router
+import Teleport.Gen.Consts
+import Teleport.Gen.RouterFacts
 namespace Teleport
 namespace C10
 open Router
@@ -437,6 +439,164 @@ example : opHandlers demoState (.routeFunc .call 0 (asc "Home") 21) = some (.cal
 example : ∃ s', step demoState (.routeFunc .push 0 (asc "Home") 41) = .ok (s', [asc "/home"]) ∧
     dispatch s' .call (asc "/home") = .handler 20 ∧ dispatch s' .push (asc "/home") = .handler 41 :=
   ⟨demoState.setTbl .push [(asc "/home", 41), (asc "/aa/bb", 30)], by decide, by decide, by decide⟩
+
+
+/-! ## tie A — router.go (fact groups `RouterFacts`, `Consts`) -/
+
+/-- an empty router with the HTTP mapper's root prefix. -/
+def kState : State := { mkind := .http, groups := [asc "/"], call := [], push := [], unkCall := none, unkPush := none }
+
+/-- **C10 tie A, status codes of the lookup**: the codes `Disp.code` gives for a missing route and for an
+    empty service method are `CodeNotFound` / `CodeBadMessage` of status.go (running `dispatch`). -/
+theorem C10_consts_dispatch_codes :
+    Gen.consts_missing = [] ∧
+    some ((dispatch kState .call (asc "/zz")).code : Int) = Gen.consts_codes.lookup "CodeNotFound" ∧
+    some ((dispatch kState .push (asc "/zz")).code : Int) = Gen.consts_codes.lookup "CodeNotFound" ∧
+    some ((dispatch kState .call []).code : Int) = Gen.consts_codes.lookup "CodeBadMessage" ∧
+    some ((dispatch (kState.setUnk .call 3) .call (asc "/zz")).code : Int) = Gen.consts_codes.lookup "CodeOK" := by
+  decide
+
+def mapperProbes : List (Bytes × Bytes) :=
+  [(asc "/p", asc "Aa_BbCc"), (asc "", asc "AaBb"), (asc "/v1", asc "Aa__Bb"), (asc "x.y", asc "ABC_XYZ"), (asc "/", asc "")]
+
+/-- **C10 tie A, the two mappers and where they are applied**: `HTTPServiceMethodMapper` is
+    `path.Join("/", prefix, toServiceMethods(name, '/', true))` and `RPCServiceMethodMapper` is
+    `strings.Trim(prefix + "." + toServiceMethods(name, '.', false), ".")` (locals inlined), the model's
+    `httpMapper` / `rpcMapper` are these compositions with the REGENERATED separator and snake flag on a set
+    of probe names, the default mapper is the HTTP one, and the mapper is applied where the model applies it
+    — `mapper("", "")` for the root, `mapper(parent.prefix, prefix)` in `SubRoute`, `mapper(prefix, func
+    name)` for function handlers and `mapper(mapper(prefix, struct name), method name)` for controller
+    structs — the model side obtained by running `init` / `step` on probes. -/
+theorem C10_router_mappers :
+    Gen.routerFacts_missing = [] ∧
+    Gen.router_mappers =
+      [("HTTPServiceMethodMapper", "path.Join(\"/\",$1,toServiceMethods($2,'/',true))"),
+       ("RPCServiceMethodMapper", "strings.Trim($1+\".\"+toServiceMethods($2,'.',false),\".\")")] ∧
+    (mapperProbes.all fun p =>
+      (Gen.router_tsm_args.lookup "HTTPServiceMethodMapper").map
+        (fun a => (toServiceMethods p.2 a.1.toUInt8 a.2).map (pathJoinRoot p.1)) == some (httpMapper p.1 p.2) &&
+      (Gen.router_tsm_args.lookup "RPCServiceMethodMapper").map
+        (fun a => (toServiceMethods p.2 a.1.toUInt8 a.2).map (fun s => trimDots (p.1 ++ [46] ++ s))) == some (rpcMapper p.1 p.2)) = true ∧
+    httpMapper (asc "/p") (asc "Aa_BbCc") = some (asc "/p/aa/bb_cc") ∧
+    rpcMapper (asc "p") (asc "Aa_BbCc") = some (asc "p.Aa.BbCc") ∧
+    Gen.router_default_mapper = "HTTPServiceMethodMapper" ∧
+    Gen.router_mapper_calls =
+      [("SubRouter.SubRoute", "M($.prefix,p0)"),
+       ("makeCallHandlersFromFunc", "M(p0,call:handlerFuncName)"),
+       ("makeCallHandlersFromStruct", "M(M(p0,call:ctrlStructName),.Name)"),
+       ("makePushHandlersFromFunc", "M(p0,call:handlerFuncName)"),
+       ("makePushHandlersFromStruct", "M(M(p0,call:ctrlStructName),.Name)"),
+       ("newRouter", "M(\"\",\"\")")] ∧
+    (match Router.init .http with | .ok s => some s.groups | _ => none) = (mapper .http [] []).map ([·]) ∧
+    (match step kState (.subRoute 0 (asc "v1")) with | .ok (s, _) => s.groups[1]? | _ => none) = mapper .http (asc "/") (asc "v1") ∧
+    (match step kState (.routeFunc .call 0 (asc "AaBb") 5) with | .ok (_, ns) => some ns | _ => none) =
+      (mapper .http (asc "/") (asc "AaBb")).map ([·]) ∧
+    (match step kState (.routeStruct .push 0 (asc "Ctl") [(asc "Aa_Bb", 5)]) with | .ok (_, ns) => some ns | _ => none) =
+      ((mapper .http (asc "/") (asc "Ctl")).bind fun q => mapper .http q (asc "Aa_Bb")).map ([·]) := by
+  decide +kernel
+
+def tblName : Kind → String
+  | .call => "callHandlers"
+  | .push => "pushHandlers"
+
+def oneName : List Kind → String
+  | [k] => tblName k
+  | _ => "?"
+
+/-- what `Model/Router.reg` does for handler kind `k`, by probing: the table whose content makes a
+    registration conflict, the table the new handler lands in, and whether two handlers of ONE
+    registration that map to the same name conflict (check and insert alternate per name, in one loop). -/
+def regProbe (k : Kind) : String × String × String :=
+  let n := asc "/x"
+  let guards := [Kind.call, Kind.push].filter fun k' =>
+    match reg (kState.setTbl k' [(n, 9)]) k [(n, 1)] with
+    | .error (.conflict m) => m == n
+    | _ => false
+  let written := [Kind.call, Kind.push].filter fun k' =>
+    match reg kState k [(n, 1)] with
+    | .ok (s, ns) => find n (s.tbl k') == some 1 && ns == [n]
+    | _ => false
+  let perName := match reg kState k [(n, 1), (n, 2)] with
+    | .error (.conflict m) => m == n
+    | _ => false
+  (oneName guards, oneName written, if perName then "loops:1;read,fatal-if:present,write" else "?")
+
+/-- **C10 tie A, registration**: each of `RouteCall`, `RouteCallFunc`, `RoutePush`, `RoutePushFunc` passes the
+    handler-type constant (`"CALL"` / `"PUSH"`, evaluated) and its own maker to `reg`; `reg`'s map selection
+    EXECUTED on that constant reads and writes `callHandlers` for CALL and `pushHandlers` for PUSH (the two
+    namespaces are separate); inside ONE loop over the new handlers the name is looked up, a present name is
+    fatal, and only then the handler is inserted — which is what `Model/Router.reg` does, probed by
+    `regProbe` (conflict with the same-kind table only, insert into the same-kind table, two equal names
+    within one registration conflict). Inserting before the check, checking in a separate pre-pass, or
+    checking the other table breaks this. -/
+theorem C10_router_reg :
+    Gen.routerFacts_missing = [] ∧
+    Gen.router_reg_table.map (fun r => (r.1, r.2.1, r.2.2.1)) =
+      [("RouteCall", "CALL", "makeCallHandlersFromStruct"), ("RouteCallFunc", "CALL", "makeCallHandlersFromFunc"),
+       ("RoutePush", "PUSH", "makePushHandlersFromStruct"), ("RoutePushFunc", "PUSH", "makePushHandlersFromFunc")] ∧
+    Gen.router_reg_table.map (fun r => (r.2.1, r.2.2.2)) =
+      [("CALL", regProbe .call), ("CALL", regProbe .call), ("PUSH", regProbe .push), ("PUSH", regProbe .push)] ∧
+    regProbe .call = ("callHandlers", "callHandlers", "loops:1;read,fatal-if:present,write") := by
+  decide +kernel
+
+/-- how a group created by `SubRoute` is related to its parent in the MODEL, by probing: a route
+    registered / an unknown handler set through the group is seen by the root lookup. -/
+def shareProbe (field : String) : String :=
+  let viaGroup (ops : List Op) : Option State :=
+    match run kState (.subRoute 0 (asc "g") :: ops) with
+    | .ok (s, _) => some s
+    | _ => none
+  match field with
+  | "callHandlers" =>
+    (match viaGroup [.routeFunc .call 1 (asc "F") 5] with
+     | some s => if (getRoute s .call (asc "/g/f")).map (·.1) == some 5 && getRoute s .push (asc "/g/f") == none then "share:callHandlers" else "fresh"
+     | none => "?")
+  | "pushHandlers" =>
+    (match viaGroup [.routeFunc .push 1 (asc "F") 5] with
+     | some s => if (getRoute s .push (asc "/g/f")).map (·.1) == some 5 && getRoute s .call (asc "/g/f") == none then "share:pushHandlers" else "fresh"
+     | none => "?")
+  | "unknownCall" =>
+    (match viaGroup [.setUnknown .call 1 7] with
+     | some s => if getRoute s .call (asc "/zz") == some (7, true) && getRoute s .push (asc "/zz") == none then "share:unknownCall" else "fresh"
+     | none => "?")
+  | "unknownPush" =>
+    (match viaGroup [.setUnknown .push 1 7] with
+     | some s => if getRoute s .push (asc "/zz") == some (7, true) && getRoute s .call (asc "/zz") == none then "share:unknownPush" else "fresh"
+     | none => "?")
+  | _ => "?"
+
+/-- **C10 tie A, shared tables and unknown-handler slots; lookup with fallback**: the unknown slots are
+    `**Handler`, allocated once in `newRouter`, COPIED (the pointer, not the pointee) by `SubRoute` together
+    with both handler maps, and written THROUGH by `SetUnknownCall` / `SetUnknownPush` — so a handler set or
+    a route registered through any group is seen by the peer's lookup, each kind in its own slot / table,
+    which is what the model does (`shareProbe`, running `run` and `getRoute`). `getCall` / `getPush` look the
+    name up in their own table, return a hit, else dereference their own unknown slot, return it if set,
+    else report a miss — `getRoute`. Letting `SubRoute` copy the slot's content, or wiring a group's push
+    slot to the call slot, breaks this. -/
+theorem C10_router_slots :
+    Gen.routerFacts_missing = [] ∧
+    Gen.router_slots =
+      [("Router.SetUnknownCall", "unknownCall", "unknownCall=write-through"),
+       ("Router.SetUnknownPush", "unknownPush", "unknownPush=write-through"),
+       ("SubRouter.SubRoute", "callHandlers", shareProbe "callHandlers"),
+       ("SubRouter.SubRoute", "pushHandlers", shareProbe "pushHandlers"),
+       ("SubRouter.SubRoute", "unknownCall", shareProbe "unknownCall"),
+       ("SubRouter.SubRoute", "unknownPush", shareProbe "unknownPush"),
+       ("SubRouter.type", "callHandlers", "map[string]*Handler"),
+       ("SubRouter.type", "pushHandlers", "map[string]*Handler"),
+       ("SubRouter.type", "unknownCall", "**Handler"),
+       ("SubRouter.type", "unknownPush", "**Handler"),
+       ("newRouter", "callHandlers", "fresh"), ("newRouter", "pushHandlers", "fresh"),
+       ("newRouter", "unknownCall", "fresh"), ("newRouter", "unknownPush", "fresh")] ∧
+    Gen.router_get =
+      [("getCall", "lookup:callHandlers;return:h,true;deref:unknownCall;return:h,true;return:nil,false"),
+       ("getPush", "lookup:pushHandlers;return:h,true;deref:unknownPush;return:h,true;return:nil,false")] ∧
+    getRoute ((kState.setTbl .call [(asc "/a", 1)]).setUnk .call 9) .call (asc "/a") = some (1, false) ∧
+    getRoute ((kState.setTbl .call [(asc "/a", 1)]).setUnk .call 9) .call (asc "/b") = some (9, true) ∧
+    getRoute ((kState.setTbl .call [(asc "/a", 1)]).setUnk .call 9) .push (asc "/a") = none ∧
+    (match Router.init .http with | .ok s => s.unkCall == none && s.unkPush == none && s.call == [] && s.push == [] | _ => false) = true := by
+  decide +kernel
+
 
 end C10
 end Teleport
